@@ -197,6 +197,30 @@ def flatten_obligations(binary):
             st = flatten_step(st, False)
         lem.append(And(st[1] == i0, st[2] == g0 + n, st[3] == p0))
     obls.append(Obl("speclemma/flatten", "clear-run-adds-to-gap", And(*lem), [], P))
+    # spec-side facts about one position of the fold (their 64-fold consequences are used by the Go-level contract
+    # of the slice kernels: position+1+carried counts consumed bytes; the index grows by at most one per position;
+    # a hit resets the gap)
+    mem0 = Array("ls", BitVecSort(64), BitVecSort(8))
+    i0, g0, p0, hit = BitVec("ls_i", 64), BitVec("ls_g", 64), BitVec("ls_p", 64), Bool("ls_hit")
+    m1, i1, g1, p1 = flatten_step((mem0, i0, g0, p0), hit)
+    obls.append(Obl("speclemma/flatten", "step-counts-bytes", p1 + g1 + 1 == p0 + g0 + 2, [], P + ["C05", "C07"]))
+    obls.append(Obl("speclemma/flatten", "step-index-monotone", And(If(hit, i1 == i0 + 1, i1 == i0), If(hit, g1 == 0, g1 == g0 + 1)), [], P + ["C05", "C07"]))
+    # their 64-position consequences, by induction over the positions: Inv(k) holds of the fold state after k positions;
+    # obligation k shows Inv(k) => Inv(k+1) for an arbitrary state satisfying Inv(k). Inv(64) is what the Go-level
+    # contract of the slice kernels uses (position+1+carried counts consumed bytes, index grows iff a bit is set, ...)
+    mk, cr, ps, ix = BitVec("lf_mask", 64), BitVec("lf_car", 64), BitVec("lf_pos", 64), BitVec("lf_idx", 64)
+    def inv(kk, i, g, p):
+        low = (mk & BitVecVal((1 << kk) - 1, 64))
+        return And(p + g + 1 == ps + cr + 1 + kk, ULE(i - ix, kk),
+                   If(low == 0, And(i == ix, g == cr + kk, p == ps), And(i != ix, ULT(g, kk))))
+    si, sg, sp = BitVec("lf_i", 64), BitVec("lf_g", 64), BitVec("lf_p", 64)
+    steps = []
+    for kk in range(64):
+        m1, i1, g1, p1 = flatten_step((mem0, si, sg, sp), Extract(kk, kk, mk) == 1)
+        steps.append(Or(Not(inv(kk, si, sg, sp)), inv(kk + 1, i1, g1, p1)))
+    obls.append(Obl("speclemma/flatten", "fold-invariant-base", inv(0, ix, cr, ps), [], P + ["C05", "C07"]))
+    for kk in range(0, 64, 8):
+        obls.append(Obl("speclemma/flatten", "fold-invariant-step%02d-%02d" % (kk, kk + 7), And(*steps[kk:kk + 8]), [], P + ["C05", "C07"]))
     return obls
 
 # ---------------------------------------------------------------------------
